@@ -101,7 +101,7 @@ func refParse(msg []byte) (m refMsg, ok bool, why string) {
 			if err != nil {
 				return m, false, err.Error()
 			}
-			m.records = append(m.records, fmt.Sprintf("A %s %x %d", owner, r.A[:], hdr.TTL))
+			m.records = append(m.records, fmt.Sprintf("A %x %x %d", "."+owner, r.A[:], hdr.TTL))
 		case dnsmessage.TypeAAAA:
 			if hdr.Length != 16 {
 				return m, false, "AAAA RDLENGTH != 16"
@@ -110,19 +110,19 @@ func refParse(msg []byte) (m refMsg, ok bool, why string) {
 			if err != nil {
 				return m, false, err.Error()
 			}
-			m.records = append(m.records, fmt.Sprintf("AAAA %s %x %d", owner, r.AAAA[:], hdr.TTL))
+			m.records = append(m.records, fmt.Sprintf("AAAA %x %x %d", "."+owner, r.AAAA[:], hdr.TTL))
 		case dnsmessage.TypeCNAME:
 			r, err := p.CNAMEResource()
 			if err != nil {
 				return m, false, err.Error()
 			}
-			m.records = append(m.records, fmt.Sprintf("CNAME %s %s %d", owner, strings.TrimSuffix(r.CNAME.String(), "."), hdr.TTL))
+			m.records = append(m.records, fmt.Sprintf("CNAME %x %x %d", "."+owner, "."+strings.TrimSuffix(r.CNAME.String(), "."), hdr.TTL))
 		case dnsmessage.TypePTR:
 			r, err := p.PTRResource()
 			if err != nil {
 				return m, false, err.Error()
 			}
-			m.records = append(m.records, fmt.Sprintf("PTR %s %s %d", owner, strings.TrimSuffix(r.PTR.String(), "."), hdr.TTL))
+			m.records = append(m.records, fmt.Sprintf("PTR %x %x %d", "."+owner, "."+strings.TrimSuffix(r.PTR.String(), "."), hdr.TTL))
 		default:
 			if err := p.SkipAnswer(); err != nil {
 				return m, false, err.Error()
@@ -141,6 +141,11 @@ func refEntry(m refMsg) (string, bool) {
 		f := strings.Split(r, " ")
 		var ttl uint32
 		fmt.Sscan(f[3], &ttl)
+		unhex := func(x string) string { return string(lib.UnHex(x))[1:] } // names travel hex-encoded with a leading '.'
+		f[1] = unhex(f[1])
+		if f[0] == "CNAME" || f[0] == "PTR" {
+			f[2] = unhex(f[2])
+		}
 		switch f[0] {
 		case "A", "AAAA":
 			var ip []byte
